@@ -143,7 +143,8 @@ private:
 
     void read_row( byte_t* dst )
     {
-        this->_io_dev.read( dst, this->_scanline_length );
+        io_error_if( this->_io_dev.read( dst, this->_scanline_length ) != static_cast< std::size_t >( this->_scanline_length )
+                       , "Unexpected end of image data." );
     }
 };
 
